@@ -278,10 +278,11 @@ def run_property(prop, tier, seed, only=None, verbose=False):
 
     # ---- deliberately broken bodies (thorough tier only; never changes the exit status)
     mutants = None
-    if tier == 'thorough' and not only and not os.environ.get('PYVC_NO_MUTANTS'):
+    if tier == 'thorough' and not only and not os.environ.get('PYVC_NO_MUTANTS') and not status['violations']:
+        # (not on a tree that already violates the property: the verdict is what matters there, and it is not delayed)
         from pyvc import mutants as _mut
         if _mut.load(prop):
-            mutants = _mut.run_all(prop, say=say)
+            mutants = _mut.run_all(prop, say=say, budget_s=float(os.environ.get('PYVC_MUTANT_BUDGET_S', '2400')))
             say("  [mutants] %d/%d killed; survived: %s; not decided: %s; neutral edits silent: %d/%d" % (
                 mutants['killed'], mutants['total'], [r['id'] for r in mutants['survived']],
                 [(r['id'], r['status']) for r in mutants['not_decided']],
